@@ -4,7 +4,7 @@ CONSTANT Chans <- ChABS
 CONSTANT Docs <- D2
 CONSTANT ChanMenu <- CMS
 CONSTANT RoleMenu <- RM3
-CONSTANT GrantMenu <- GM8
+CONSTANT GrantMenu <- GM5
 CONSTANT MaxSteps = 12
 CONSTANT SplitWrite = FALSE
 CONSTANT SplitLoad = FALSE
